@@ -53,8 +53,9 @@ impl Intern<Ty> {
     // advance the uid generators, staying below 2^26
     #[verifier::external_body]
     pub fn to_type_id(self, meta_tys: &mut MetaTyData, pointer_ty: types::Type) -> (r: u32)
-        requires gens_ok(*old(meta_tys))
-        ensures gens_ok(*final(meta_tys))   // ASSUMED: fewer than 2^26 types of each kind
+        requires gens_ok(*old(meta_tys)), rows_ok(*old(meta_tys))
+        ensures gens_ok(*final(meta_tys)),   // ASSUMED: fewer than 2^26 types of each kind
+            rows_ok(*final(meta_tys)),       // it appends the types it registers, each with its row index
     { unimplemented!() }
 }
 ''')
@@ -67,20 +68,25 @@ u.extract(CV, 'impl ToTyId for Intern<Ty>::fn to_type_id', key='type_id_match',
                     why='the `let id = match self.as_ref() { .. };` statement of to_type_id lifted into a method (the memo lookup before it and the two pushes after it stay outside)'),
           contract='''
     requires
-        gens_ok(*old(meta_tys)), entry_ok(*self.0), pbw() == 32 || pbw() == 64,
+        gens_ok(*old(meta_tys)), rows_ok(*old(meta_tys)), entry_ok(*self.0), pbw() == 32 || pbw() == 64,
         pointer_ty.bits_ == pbw(), !pointer_ty.is_float,
         !(*self.0 is NaivePolymorphicFunction),
         is_simple(*self.0) ==> ty_wf(*self.0),
     ensures
         is_simple(*self.0) ==> simple_id_ok(*self.0, res),
         !is_simple(*self.0) ==> dec_discr(res) == kind_discr(*self.0) && dec_index(res) < 0x400_0000,
+        // the index is the row this type gets in the reflection table of its kind: the number of
+        // types of that kind already in `tys_to_compile` (the type itself is appended next)
+        !is_simple(*self.0) ==> dec_index(res) == count_kind(final(meta_tys).tys_to_compile@, kind_discr(*self.0))
+            && rows_pending(*final(meta_tys), kind_discr(*self.0)),
+        is_simple(*self.0) ==> rows_ok(*final(meta_tys)),
 ''',
           loop_count=2,
           desugar_for={0: ('mi', 'ref'), 1: ('vi', 'ref')},
-          loops={0: 'invariant gens_ok(*meta_tys), 0 <= mi <= it_mi@.len() decreases it_mi@.len() - mi',
-                 1: 'invariant gens_ok(*meta_tys), 0 <= vi <= it_vi@.len() decreases it_vi@.len() - vi'},
-          inserts=[('let list_id = meta_tys.%s_uid_gen.generate_unique_id();' % g, 'after',
-                    ' proof { lemma_compound(%s_DISCRIMINANT, list_id); } ' % d)
+          loops={0: 'invariant gens_ok(*meta_tys), rows_ok(*meta_tys), 0 <= mi <= it_mi@.len() decreases it_mi@.len() - mi',
+                 1: 'invariant gens_ok(*meta_tys), rows_ok(*meta_tys), 0 <= vi <= it_vi@.len() decreases it_vi@.len() - vi'},
+          inserts=[('@after_stmt:meta_tys.%s_uid_gen.generate_unique_id()' % g, 'after',
+                    ' proof { lemma_compound(%s_DISCRIMINANT, (meta_tys.%s_uid_gen.inner - 1) as u32); } ' % (d, g))
                    for g, d in [('array', 'ARRAY'), ('slice', 'SLICE'), ('pointer', 'POINTER'), ('distinct', 'DISTINCT'),
                                 ('function', 'FUNCTION'), ('struct', 'STRUCT'), ('enum', 'ENUM'), ('variant', 'VARIANT'),
                                 ('optional', 'OPTIONAL'), ('error_union', 'ERROR_UNION')]])
@@ -89,6 +95,23 @@ u.extract(CV, 'impl ToTyId for Intern<Ty>::fn to_type_id', key='type_id_match',
 u.expected += ['lemma_simple_ids_injective', 'lemma_isize_id_distinct', 'lemma_usize_id_distinct', 'lemma_pack', 'lemma_compound']
 
 MUTANTS = [
+    # the index must be drawn after the component types have been registered (it is the table row)
+    (CV, '''                let id = ENUM_DISCRIMINANT << 26;
+
+                // make sure to compile the variants too
+                for variant in variants {
+                    variant.to_type_id(meta_tys, pointer_ty);
+                }
+
+                let list_id = meta_tys.enum_uid_gen.generate_unique_id();
+''', '''                let id = ENUM_DISCRIMINANT << 26;
+                let list_id = meta_tys.enum_uid_gen.generate_unique_id();
+
+                // make sure to compile the variants too
+                for variant in variants {
+                    variant.to_type_id(meta_tys, pointer_ty);
+                }
+''', 'violation'),
     (CV, 'let align = align << 5;', 'let align = align << 4;', 'violation'),
     (CV, 'let sign = (signed as u32) << 9;', 'let sign = (signed as u32) << 8;', 'violation'),
     (CV, 'Ty::Bool => simple_id(BOOL_DISCRIMINANT, 8, false),', 'Ty::Bool => simple_id(BOOL_DISCRIMINANT, 16, false),', 'violation'),
